@@ -80,7 +80,7 @@ def judge_module(res, tmod, m, traces, k, strategy, sname, via_cli=None):
                 orig_bad(key, txt)
     by_func = {}
     for t in traces:
-        by_func.setdefault(t.func, []).append(t)
+        by_func.setdefault(inspect.unwrap(t.func), []).append(t)  # a functools.wraps wrapper is traced under the wrapped function's name
     specs = {f.qual: f for f in m.funcs}
     for func, ts in by_func.items():
         q = func.__qualname__
